@@ -20,13 +20,13 @@
      TaskFailure): refinement up to resource exhaustion, the resource side being what C03 / C04 /
      C05 state.  [PUnspec] results are outside the claim.
 
-   compile_correct is PROVED FOR THREE NESTED FRAGMENTS of the language (second half of this file:
-   C01_compile_correct_f1 / _f2 / _f3, C01_fragments_well_scoped), against the merged models
+   compile_correct is PROVED FOR FOUR NESTED FRAGMENTS of the language (second half of this file:
+   C01_compile_correct_f1 / _f2 / _f3 / _f4, C01_fragments_well_scoped), against the merged models
    Compiler.compile, C15Link.to_vm, Vm.run and RefSem.eval_program: programs that consist of `main`
    alone, over integer / nil globals, with arithmetic, comparison and boolean operators, global
-   assignment, IfTrue / IfFalse / IfElse, Composite, and While loops at the top level of main; the
+   assignment, IfTrue / IfFalse / IfElse, Composite and While, nested at will (the while-language); the
    resource side is explicit (hypotheses on expression depth and budget).  For everything else
-   (reals, locals, Repeat / ForEach, nested loops, calls, tables, closures, natives) the claim is
+   (reals, locals, Repeat / ForEach, calls, tables, closures, natives) the claim is
    carried by the differential check C01Check (the real compiler + VM against eval_program). *)
 From Coq Require Import List NArith ZArith Bool Arith String Ascii.
 Import ListNotations.
@@ -523,13 +523,76 @@ Example C01_fragment_instances_well_scoped :
   C01SimDefs.in_f1 f2_example = false /\ C01SimDefs2.in_f2 f3_example = false.
 Proof. vm_compute. repeat split; reflexivity. Qed.
 
-(* the three fragments are nested, and every program of them is in the class property C01 quantifies
+(* ==== fragment F4: the while-language over integer / nil globals ====
+   statements:  SetGlobalVar g e | Comment | IfTrue e s | IfFalse e s | IfElse e s s | While e s |
+   Composite [s; ...], nested at will, e an expression of F1; main is a list of statements
+   (C01SimDefs4.in_f4).  This contains F1, F2a and F3w; same hypotheses and same shape as F3w. *)
+From Cao Require C01SimDefs4 C01SimF4.
+
+Theorem C01_compile_correct_f4 :
+  forall (F : Vm.fops) (bld : Vm.build) (M : module) (B : Compiler.compiled) (fuel : nat) (host : list str) (o : obs),
+    C01SimDefs4.in_f4 M = true ->
+    C01SimDefs.handles_inj (C01SimDefs4.main_names4 (C01SimDefs.main_cards M)) = true ->
+    C01SimDefs4.depth_ok4 (C01SimDefs.main_cards M) = true ->
+    Compiler.compile M CompilerProofs.default_options = Compiler.COk B ->
+    (N.of_nat (List.length (Compiler.p_ids B)) < Bits.two32)%N ->
+    (N.of_nat (List.length (Compiler.p_bytecode B)) < 2147483648)%N ->
+    eval_program fuel M host = PObs o ->
+    exists N0 : nat, forall budget : nat, N0 <= budget ->
+      let r := Vm.run F bld budget (C15Link.to_vm B) Vm.fresh_state in
+      C01SimDefs.vm_kind (fst r) = Some (ob_kind o) /\
+      forall n, C01SimDefs.no_collision (C01SimDefs4.main_names4 (C01SimDefs.main_cards M)) n ->
+        option_map C01SimDefs.vm_tree (Vm.read_var_by_name (C15Link.to_vm B) (snd r) n) = assoc n (ob_globals o).
+Proof. exact C01SimF4.compile_correct_f4. Qed.
+Print Assumptions C01_compile_correct_f4.
+
+(* an instance with nested loops: the primes below 12 are counted by trial division with repeated
+   subtraction (the language of the fragment has no division); a loop inside a conditional inside a loop *)
+Definition f4_example : module :=
+  prog [("main", fn []
+    [CSetGlobalVar (s "count") (CScalarInt 0);
+     CSetGlobalVar (s "n") (CScalarInt 2);
+     CBin BWhile (CBin BLess (CReadVar (s "n")) (CScalarInt 12))
+       (CComposite (s "")
+          [CSetGlobalVar (s "prime") (CScalarInt 1);
+           CSetGlobalVar (s "d") (CScalarInt 2);
+           CBin BWhile (CBin BLess (CBin BMul (CReadVar (s "d")) (CReadVar (s "d"))) (CBin BAdd (CReadVar (s "n")) (CScalarInt 1)))
+             (CComposite (s "")
+                [(* r := n mod d by repeated subtraction *)
+                 CSetGlobalVar (s "r") (CReadVar (s "n"));
+                 CBin BWhile (CBin BLessOrEq (CReadVar (s "d")) (CReadVar (s "r")))
+                   (CSetGlobalVar (s "r") (CBin BSub (CReadVar (s "r")) (CReadVar (s "d"))));
+                 CBin BIfFalse (CReadVar (s "r")) (CSetGlobalVar (s "prime") (CScalarInt 0));
+                 CSetGlobalVar (s "d") (CBin BAdd (CReadVar (s "d")) (CScalarInt 1))]);
+           CBin BIfTrue (CReadVar (s "prime"))
+             (CSetGlobalVar (s "count") (CBin BAdd (CReadVar (s "count")) (CScalarInt 1)));
+           CSetGlobalVar (s "n") (CBin BAdd (CReadVar (s "n")) (CScalarInt 1))])])].
+Example C01_compile_correct_f4_instance :
+  match Compiler.compile f4_example CompilerProofs.default_options, eval_program 1000 f4_example [] with
+  | Compiler.COk B, PObs o =>
+      C01SimDefs4.in_f4 f4_example = true /\ C01SimDefs3.in_f3 f4_example = false /\
+      C01SimDefs.handles_inj (C01SimDefs4.main_names4 (C01SimDefs.main_cards f4_example)) = true /\
+      C01SimDefs4.depth_ok4 (C01SimDefs.main_cards f4_example) = true /\
+      (N.of_nat (List.length (Compiler.p_ids B)) <? Bits.two32)%N = true /\
+      (N.of_nat (List.length (Compiler.p_bytecode B)) <? 2147483648)%N = true /\
+      (ob_kind o, assoc (s "count") (ob_globals o)) = (KOk, Some (TrInt 5)) /\
+      let r := Vm.run no_floats Vm.Debug 3000 (C15Link.to_vm B) Vm.fresh_state in
+      C01SimDefs.vm_kind (fst r) = Some (ob_kind o) /\
+      map (fun n => option_map C01SimDefs.vm_tree (Vm.read_var_by_name (C15Link.to_vm B) (snd r) n))
+          [s "count"; s "n"; s "prime"; s "d"; s "r"; s "x"]
+      = map (fun n => assoc n (ob_globals o)) [s "count"; s "n"; s "prime"; s "d"; s "r"; s "x"]
+  | _, _ => False
+  end.
+Proof. vm_compute. repeat split; reflexivity. Qed.
+
+(* the four fragments are nested, and every program of them is in the class property C01 quantifies
    over: the theorems above are instances of compile_correct, not statements about other programs *)
 From Cao Require C01SimScope.
 Theorem C01_fragments_well_scoped :
   forall M : module,
     (C01SimDefs.in_f1 M = true -> C01SimDefs2.in_f2 M = true) /\
     (C01SimDefs2.in_f2 M = true -> C01SimDefs3.in_f3 M = true) /\
-    (C01SimDefs3.in_f3 M = true -> well_scoped M = true).
+    (C01SimDefs3.in_f3 M = true -> C01SimDefs4.in_f4 M = true) /\
+    (C01SimDefs4.in_f4 M = true -> well_scoped M = true).
 Proof. exact C01SimScope.fragments_well_scoped. Qed.
 Print Assumptions C01_fragments_well_scoped.
